@@ -66,17 +66,41 @@ pub fn case(rng: &mut Rng, ndocs: usize) -> (RuleAst, Vec<DVal>) {
     (ast, docs)
 }
 
-fn verdict_line(ast: &RuleAst, docs: &[DVal]) -> String {
+/// switch sets whose optimised verdicts the ignore_case build adds to its line (for rules in
+/// C01's clean stratum, where optimisation is verdict-preserving in the default build)
+const OPT_SETS: [u8; 3] = [15, 2, 4];
+
+/// `actual_optimised`: evaluate the optimised variants (ignore_case build); otherwise (default
+/// build) the expected value of those columns is the unoptimised verdict, repeated.
+fn verdict_line(ast: &RuleAst, docs: &[DVal], clean: bool, actual_optimised: bool) -> String {
     let Some(text) = ast.to_text() else { return "E".into() };
     match eng::load(&text) {
         Ok(Load::Ok(r)) => {
             let mut s = String::from("L ");
-            for d in docs {
-                s.push(match eng::matches(&r, &to_yaml_map(d)) {
-                    Ok(true) => '1',
-                    Ok(false) => '0',
-                    Err(_) => 'P',
-                });
+            let maps: Vec<_> = docs.iter().map(to_yaml_map).collect();
+            let row = |r: &tau_engine::Rule| -> String {
+                maps.iter()
+                    .map(|m| match eng::matches(r, m) {
+                        Ok(true) => '1',
+                        Ok(false) => '0',
+                        Err(_) => 'P',
+                    })
+                    .collect()
+            };
+            let base = row(&r);
+            s.push_str(&base);
+            if clean {
+                for sw in OPT_SETS {
+                    s.push(' ');
+                    if actual_optimised {
+                        match eng::optimise(&r, eng::Sw(sw)) {
+                            Ok(o) => s.push_str(&row(&o)),
+                            Err(_) => s.push_str(&"P".repeat(docs.len())),
+                        }
+                    } else {
+                        s.push_str(&base);
+                    }
+                }
             }
             s
         }
@@ -107,8 +131,11 @@ fn shard_lines(ctx: &Ctx, shard: usize, with_plain: bool) -> Vec<Line> {
     for _ in 0..count / SHARDS {
         let (ast, docs) = case(&mut rng, ndocs);
         let subject = if is_icase_build() { ast.clone() } else { prefixed(&ast) };
-        let line = verdict_line(&subject, &docs);
-        let case_mattered = if with_plain && line.starts_with('L') && verdict_line(&ast, &docs) != line { Some(gen::tag_key(&gen::tags(&ast))) } else { None };
+        // (condition-level quantifiers are left out altogether: part of that finding depends
+        // on the document)
+        let clean = crate::c01::triggers(&ast).is_empty() && !gen::tags(&ast).iter().any(|t| t.starts_with("cond-all") || t.starts_with("cond-of"));
+        let line = verdict_line(&subject, &docs, clean, is_icase_build());
+        let case_mattered = if with_plain && line.starts_with('L') && verdict_line(&ast, &docs, clean, false) != line { Some(gen::tag_key(&gen::tags(&ast))) } else { None };
         out.push(Line { line, case_mattered });
     }
     out
@@ -222,13 +249,17 @@ pub fn run(ctx: &Ctx) -> i32 {
             let per = sizes(ctx).0 / SHARDS;
             let (shard, idx) = (i / per.max(1), i % per.max(1));
             let (ast, docs) = regenerate(ctx, shard, idx);
+            // "L " + one group of verdicts per variant (unoptimised, then OPT_SETS), groups
+            // separated by one space
             let which = a.chars().zip(b.chars()).position(|(x, y)| x != y).unwrap_or(0);
-            let doc = docs.get(which.saturating_sub(2)).cloned().unwrap_or(DVal::Obj(vec![]));
+            let (group, col) = (which.saturating_sub(2) / (docs.len() + 1), which.saturating_sub(2) % (docs.len() + 1));
+            let doc = docs.get(col).cloned().unwrap_or(DVal::Obj(vec![]));
+            let variant = if group == 0 { "unoptimised".to_string() } else { format!("optimised [{}]", eng::Sw(OPT_SETS[(group - 1).min(2)]).name()) };
             rep.violation(
                 "builds-differ",
                 &format!("c15:{}", gen::tag_key(&gen::tags(&ast)).chars().take(80).collect::<String>()),
-                &format!("rule #{}: default build on the i-prefixed rule gives [{}] , ignore_case build on the rule gives [{}]", i, a, b),
-                json!({"rule": ast.to_text(), "i_prefixed_rule": prefixed(&ast).to_text(), "doc": crate::mon::doc_text(&doc), "doc_json": doc.to_json_text(), "default_build_line": a, "ignore_case_build_line": b, "index": i}),
+                &format!("rule #{} ({}): default build on the i-prefixed rule gives [{}] , ignore_case build on the rule gives [{}]", i, variant, a, b),
+                json!({"rule": ast.to_text(), "i_prefixed_rule": prefixed(&ast).to_text(), "doc": crate::mon::doc_text(&doc), "doc_json": doc.to_json_text(), "default_build_line": a, "ignore_case_build_line": b, "index": i, "variant": variant}),
             );
         }
     }
@@ -245,7 +276,7 @@ pub fn run(ctx: &Ctx) -> i32 {
         ctx,
         rep,
         Meta {
-            rule: "two builds of the harness (default, and with tau-engine's ignore_case feature) regenerate the same seeded stream of generated rules (ASCII patterns of every kind, single and in lists, under all/of/not/str, nested) and rule-aware mixed-case documents; the ignore_case build evaluates each rule as written, the default build evaluates it with 'i' prepended to every string pattern; one verdict line per rule from each build, compared line by line (load outcome and every verdict). non-trivial = rule for which the un-prefixed default rule gives different verdicts from the prefixed one (case mattered); distinct by feature tags".into(),
+            rule: "two builds of the harness (default, and with tau-engine's ignore_case feature) regenerate the same seeded stream of generated rules (ASCII patterns of every kind, single and in lists, under all/of/not/str, nested) and rule-aware mixed-case documents; the ignore_case build evaluates each rule as written, the default build evaluates it with 'i' prepended to every string pattern; one verdict line per rule from each build, compared line by line (load outcome and every verdict); for rules in C01's clean stratum the ignore_case build also evaluates three optimised forms (all switches, shake, rewrite), which must give the default build's verdicts too. non-trivial = rule for which the un-prefixed default rule gives different verdicts from the prefixed one (case mattered); distinct by feature tags".into(),
             exhaustive: false,
             assumptions: vec!["numeric patterns and bare numbers/booleans are not string patterns and are left alone in both builds".into()],
             min_nontrivial: 30,
